@@ -30,6 +30,10 @@ FLOOR = 18
 
 
 def check(ctx):
+    # positional parameters keep their documented positions (a reordering survives every keyword call)
+    from ..sigrules import signatures as _signatures
+
+    _signatures(ctx, "R-SIG", classes=('skmatter.sample_selection.VoronoiFPS',))
     P = ctx.P
     N = ctx.normalizer()
     cls = P.cls("skmatter.sample_selection.VoronoiFPS")
